@@ -52,7 +52,10 @@ class Prop(PropBase):
         pb, np, u = self.pb, self.np, self.u
         shape = (case["L"], case["n"], 2) + ((case["extra"],) if case["extra"] else ())
         v = np.array([complex(a / 8.0, b / 8.0) for a, b in case["vals"]]).reshape(shape)
-        v = v.astype({"c8": "c8", "c16": "c16"}[case["dtype"]])
+        # amplitude scale: a power of two (exact), from unit-scale samples down to very weak ones — the conversions are linear,
+        # the Stokes parameters quadratic, so the results are compared after dividing the scale out again (exactly)
+        sc = 2.0 ** -[0, 0, 30, 55][(case["L"] + case["n"] + len(case["vals"])) % 4]
+        v = (v * sc).astype({"c8": "c8", "c16": "c16"}[case["dtype"]])
         data = v
         if case["dask"]:
             import dask.array as da
@@ -87,16 +90,16 @@ class Prop(PropBase):
             "keyerr": keyerr,
             "shapes": [list(lin.shape), list(circ.shape), list(st.shape), list(inten.shape)],
             "st_dtype": str(st.dtype), "in_shape": list(z.shape),
-            "lin": [[complex(a).real, complex(a).imag] for a in np.asarray(lin.data).astype(complex)[:, :, 0].reshape(-1)],
-            "lin2": [[complex(a).real, complex(a).imag] for a in np.asarray(lin.data).astype(complex)[:, :, 1].reshape(-1)],
-            "circ": [[complex(a).real, complex(a).imag] for a in np.asarray(circ.data).astype(complex)[:, :, 0].reshape(-1)],
-            "circ2": [[complex(a).real, complex(a).imag] for a in np.asarray(circ.data).astype(complex)[:, :, 1].reshape(-1)],
-            "stokes": [[float(x) for x in stv[:, :, k].reshape(-1)] for k in range(4)],
-            "inten": [[float(x) for x in np.asarray(inten.data)[:, :, k].reshape(-1)] for k in range(2)],
+            "lin": [[complex(a).real, complex(a).imag] for a in np.asarray(lin.data).astype(complex)[:, :, 0].reshape(-1) / sc],
+            "lin2": [[complex(a).real, complex(a).imag] for a in np.asarray(lin.data).astype(complex)[:, :, 1].reshape(-1) / sc],
+            "circ": [[complex(a).real, complex(a).imag] for a in np.asarray(circ.data).astype(complex)[:, :, 0].reshape(-1) / sc],
+            "circ2": [[complex(a).real, complex(a).imag] for a in np.asarray(circ.data).astype(complex)[:, :, 1].reshape(-1) / sc],
+            "stokes": [[float(x) / sc / sc for x in stv[:, :, k].reshape(-1).astype(float)] for k in range(4)],
+            "inten": [[float(x) / sc / sc for x in np.asarray(inten.data)[:, :, k].reshape(-1).astype(float)] for k in range(2)],
             "comps_ok": bool(all(np.array_equal(np.asarray(comps[k].data), stv[:, :, k]) and
                                  np.array_equal(np.asarray(comps[4 + k].data), stv[:, :, k]) for k in range(4))),
-            "A": [[complex(a).real, complex(a).imag] for a in A.astype(complex)],
-            "B": [[complex(a).real, complex(a).imag] for a in B.astype(complex)],
+            "A": [[complex(a).real, complex(a).imag] for a in A.astype(complex) / sc],
+            "B": [[complex(a).real, complex(a).imag] for a in B.astype(complex) / sc],
         }
         if case["dask"]:
             # all conversions of one Dask-backed signal evaluated in ONE graph equal the results computed alone
